@@ -589,7 +589,7 @@ fn check_shard_discontinuity(
     table_prefix: &'static str,
     proposed_insertion_range: Range<u64>,
 ) -> Result<(), Error> {
-    if let Ok((Some(stored_min), Some(stored_max))) = conn
+    if let (Some(stored_min), Some(stored_max)) = conn
         .query_row(
             &format!("SELECT MIN(shard_index), MAX(shard_index) FROM {table_prefix}_tree_shards"),
             [],
@@ -599,7 +599,7 @@ fn check_shard_discontinuity(
                 Ok((min, max))
             },
         )
-        .map_err(Error::Query)
+        .map_err(Error::Query)?
     {
         // If the ranges overlap, or are directly adjacent, then we aren't creating a
         // discontinuity. We can check this by comparing their start-inclusive,
